@@ -757,3 +757,64 @@ package saml
 //@ requires[cfg] d: d != nil
 //@ ensures[C14] location: err == nil ==> locationOK(m.Binding, m.Location)
 //@ ensures[C14] response_location: err == nil && m.ResponseLocation != nil ==> locationOK(m.Binding, *m.ResponseLocation) && *m.ResponseLocation != ""
+
+//@ -- ------------------------------------------------------------------------------------------
+//@ -- C15: the numeric core of durations and instants (the lexical layer - fmt, regexp, strconv, time.Parse/Format - is assumed)
+//@ globalinv duration_patterns: durationRegexp != nil && durationTimeRegexp != nil && durationRegexp.NumSubexp() == 5 && durationTimeRegexp.NumSubexp() == 3
+
+//@ go func durationParts(d Duration, h, m, s, n time.Duration) bool {
+//@    return int64(d) == int64(h)*3600000000000+int64(m)*60000000000+int64(s)*1000000000+int64(n) &&
+//@      h >= 0 && 0 <= m && m < 60 && 0 <= s && s < 60 && 0 <= n && n < 1000000000 }
+//@ go func firstArgIs(a []interface{}, v time.Duration) bool { if len(a) != 1 { return false }; x, ok := a[0].(time.Duration); return ok && x == v }
+
+//@ contract (Duration).MarshalText
+//@ arith wrap64
+//@ -- what is printed are the components of an exact decomposition of |d| (64-bit arithmetic: fails at MinInt64)
+//@ assert@call[C15] Sprintf #1 (format string, a []interface{}) uses abs=d Duration, h time.Duration, m time.Duration, s time.Duration, ns time.Duration hours:
+//@    format == "%dH" && firstArgIs(a, h) && durationParts(abs, h, m, s, ns)
+//@ assert@call[C15] Sprintf #2 (format string, a []interface{}) uses abs=d Duration, h time.Duration, m time.Duration, s time.Duration, ns time.Duration minutes:
+//@    format == "%dM" && firstArgIs(a, m) && durationParts(abs, h, m, s, ns)
+//@ assert@call[C15] Sprintf #3 (format string, a []interface{}) uses abs=d Duration, h time.Duration, m time.Duration, s time.Duration, ns time.Duration seconds:
+//@    format == "%d" && firstArgIs(a, s) && durationParts(abs, h, m, s, ns)
+//@ assert@call[C15] Sprintf #4 (format string, a []interface{}) uses abs=d Duration, h time.Duration, m time.Duration, s time.Duration, ns time.Duration nanos:
+//@    format == ".%09d" && firstArgIs(a, ns) && durationParts(abs, h, m, s, ns)
+//@ assert@return[C15] #2 uses abs=d Duration, h time.Duration, m time.Duration, s time.Duration, ns time.Duration exact_decomposition:
+//@    durationParts(abs, h, m, s, ns) && (abs == d || -abs == d)
+//@ ensures[C15] zero_is_empty: d == 0 ==> result == nil && err == nil
+//@ ensures[C15] no_error: err == nil
+
+//@ contract (*Duration).UnmarshalText
+//@ ensures[C15] nil_is_zero: text == nil ==> err == nil && *d == 0
+
+//@ -- instants: marshalling goes through Round(ms).UTC().Format(timeFormat); parsing tries RFC3339, RFC3339Nano, then the zoneless
+//@ -- layout, and every accepted instant is rounded to the millisecond; empty text is the zero instant
+//@ contract (RelaxedTime).String
+//@ ensures[C15,C02] canonical: result == time.Time(m).Round(time.Millisecond).UTC().Format(timeFormat)
+//@ contract (*RelaxedTime).UnmarshalText
+//@ ensures[C15,C02] empty_is_zero: len(text) == 0 ==> err == nil
+//@ assert@call[C15] Parse #1 (layout string, value string) first_layout: layout == time.RFC3339 && value == string(text)
+//@ assert@call[C15] Parse #2 (layout string, value string) second_layout: layout == time.RFC3339Nano && value == string(text)
+//@ assert@call[C15] Parse #3 (layout string, value string) third_layout: layout == "2006-01-02T15:04:05.999999999" && value == string(text)
+//@ assert@call[C15,C02] Round #0 (t time.Time, d time.Duration) millisecond: d == time.Millisecond
+
+//@ -- the value of an accepted duration text, in terms of the (assumed deterministic) lexical functions: the exact sum
+//@ -- of its components, the seconds field taken at its exact decimal value (DecimalNs)
+//@ import strconv "strconv"
+//@ go func atoiOr0(s string) int64 { if s == "" { return 0 }; v, _ := strconv.Atoi(s); return int64(v) }
+//@ go func secondsNs(s string) int64 { if s == "" { return 0 }; return DecimalNs(s) }
+//@ go func timePartNs(t string) int64 {
+//@    if t == "" { return 0 }
+//@    m := durationTimeRegexp.FindStringSubmatch(t)
+//@    return atoiOr0(m[1])*3600000000000 + atoiOr0(m[2])*60000000000 + secondsNs(m[3]) }
+//@ go func timePartSeconds(t string) string {
+//@    if t == "" { return "" }
+//@    return durationTimeRegexp.FindStringSubmatch(t)[3] }
+//@ go func durationOf(text []byte) int64 {
+//@    m := durationRegexp.FindStringSubmatch(string(text))
+//@    sign := int64(1)
+//@    if m[1] == "-" { sign = -1 }
+//@    return sign * (atoiOr0(m[2])*int64(year) + atoiOr0(m[3])*int64(month) + atoiOr0(m[4])*int64(day) + timePartNs(m[5])) }
+//@ go func secondsBounded(text []byte) bool {
+//@    return secondsNs(timePartSeconds(durationRegexp.FindStringSubmatch(string(text))[5])) <= 1000000000000000 }
+//@ contract (*Duration).UnmarshalText
+//@ ensures[C15] value: err == nil && text != nil && secondsBounded(text) ==> int64(*d) == durationOf(text)
